@@ -863,3 +863,80 @@ func vH_C03(data []byte, which int) {
 		vAssert(vTreeEq(got, want), "C03.tree")
 	}
 }
+
+// ---- C15 ---------------------------------------------------------------
+func vReaderCall(which int, r *ValueReader, data []byte) (interface{}, int, error) {
+	switch which {
+	case 0:
+		return r.ReadValue(data)
+	case 1:
+		m, p, err := r.ReadObject(data)
+		if err != nil {
+			return nil, p, err
+		}
+		return m, p, nil
+	}
+	a, p, err := r.ReadArray(data)
+	if err != nil {
+		return nil, p, err
+	}
+	return a, p, nil
+}
+
+// vMutate modifies a result the way a caller might
+func vMutate(v interface{}) {
+	switch x := v.(type) {
+	case []interface{}:
+		if len(x) > 0 {
+			x[0] = "verif-mutated"
+		}
+	case map[string]interface{}:
+		x["verif-mutated"] = true
+	}
+}
+
+// a call on document A, then a call on document B with the same reader; B's result must
+// equal a fresh reader's, A's result must still be A's value afterwards, also after the
+// caller modified B's result.
+func vH_C15(a []byte, b []byte, w1 int, w2 int) {
+	var r ValueReader
+	g1, _, e1 := vReaderCall(w1, &r, a)
+	var want1 interface{}
+	if e1 == nil {
+		want1, _, _ = vRefDecode(a, vSkipWS(a, 0))
+	}
+	g2, p2, e2 := vReaderCall(w2, &r, b)
+	var fresh ValueReader
+	f2, fp2, fe2 := vReaderCall(w2, &fresh, b)
+	vReach("C15.second-call")
+	vAssert((e2 == nil) == (fe2 == nil), "C15.same-success")
+	if e2 == nil && fe2 == nil {
+		vReach("C15.second-ok")
+		vAssert(p2 == fp2, "C15.same-offset")
+		vAssert(vTreeEq(g2, f2), "C15.same-tree")
+	}
+	if e1 == nil {
+		vReach("C15.first-ok")
+		vAssert(vTreeEq(g1, want1), "C15.earlier-result-unchanged")
+		if e2 == nil {
+			vMutate(g2)
+			vAssert(vTreeEq(g1, want1), "C15.earlier-result-unchanged-after-mutation")
+		}
+	}
+}
+
+// three calls: A, then B (possibly failing), then C compared with fresh
+func vH_C15_three(a []byte, b []byte, c []byte, w1, w2, w3 int) {
+	var r ValueReader
+	vReaderCall(w1, &r, a)
+	vReaderCall(w2, &r, b)
+	g3, p3, e3 := vReaderCall(w3, &r, c)
+	var fresh ValueReader
+	f3, fp3, fe3 := vReaderCall(w3, &fresh, c)
+	vReach("C15.third-call")
+	vAssert((e3 == nil) == (fe3 == nil), "C15.3.same-success")
+	if e3 == nil && fe3 == nil {
+		vAssert(p3 == fp3, "C15.3.same-offset")
+		vAssert(vTreeEq(g3, f3), "C15.3.same-tree")
+	}
+}
